@@ -334,7 +334,9 @@ func init() {
 	reg("(*sync.Mutex).Lock", func(e *Engine, fr *frame, fn *ssa.Function, a []Value) Value {
 		p := e.derefCheck(fr, a[0])
 		e.yield()
+		e.blockFrame = fr
 		e.blockUntil(func() bool { return e.mutexes[p] == 0 }, "Mutex.Lock")
+		e.blockFrame = nil
 		e.mutexes[p] = 1
 		return nil
 	})
@@ -360,7 +362,9 @@ func init() {
 	reg("(*sync.RWMutex).Lock", func(e *Engine, fr *frame, fn *ssa.Function, a []Value) Value {
 		p := e.derefCheck(fr, a[0])
 		e.yield()
+		e.blockFrame = fr
 		e.blockUntil(func() bool { return e.mutexes[p] == 0 }, "RWMutex.Lock")
+		e.blockFrame = nil
 		e.mutexes[p] = -1
 		return nil
 	})
@@ -376,7 +380,9 @@ func init() {
 	reg("(*sync.RWMutex).RLock", func(e *Engine, fr *frame, fn *ssa.Function, a []Value) Value {
 		p := e.derefCheck(fr, a[0])
 		e.yield()
+		e.blockFrame = fr
 		e.blockUntil(func() bool { return e.mutexes[p] >= 0 }, "RWMutex.RLock")
+		e.blockFrame = nil
 		e.mutexes[p]++
 		return nil
 	})
